@@ -237,3 +237,20 @@ M("C10-R3-error-exit-1", "C10", [(U, "std::process::exit(2);", "std::process::ex
 M("C10-R3-parse-error-status-1", "C10", [(MA, "            error_message(\"query\", &err);\n            2", "            error_message(\"query\", &err);\n            1")], ["status_parse-error"])
 M("C10-R5-cond-returns-none", "C10", [(P, "            _ => {\n                self.drop_lexem();\n                Ok(left)\n            }\n        };\n\n        if let Ok(Some(expr)) = result.clone() {", "            _ => {\n                self.drop_lexem();\n                if negate { Ok(None) } else { Ok(left) }\n            }\n        };\n\n        if let Ok(Some(expr)) = result.clone() {")], ["grammar_ok-none"])
 M("C10-V-guarded-unwrap-added", "C10", [(S, "        let limit = query.limit;\n", "        let limit = query.limit;\n        let first_root = query.roots.first();\n        if first_root.is_some() {\n            let _ = first_root.unwrap();\n        }\n")], kind="variant")
+
+# ---------------------------------------------------------------- C17
+M("C17-R1-readdir-error-not-counted", "C17", [(S, "            Err(err) => {\n                self.error_count += 1;\n                path_error_message(dir, err);\n            }\n        }\n\n        if traversal_mode == Bfs", "            Err(err) => {\n                path_error_message(dir, err);\n            }\n        }\n\n        if traversal_mode == Bfs")], ["error-arm_visit_dir"])
+M("C17-R1-entry-error-breaks", "C17", [(S, "                        Err(err) => {\n                            self.error_count += 1;\n                            path_error_message(dir, err);\n                        }", "                        Err(err) => {\n                            self.error_count += 1;\n                            path_error_message(dir, err);\n                            break;\n                        }")], ["error-arm_visit_dir"])
+M("C17-R1-filetype-question-mark", "C17", [(S, "                                    let result = entry.file_type();\n                                    if let Ok(file_type) = result {", "                                    let result: io::Result<FileType> = Ok(entry.file_type()?);\n                                    if let Ok(file_type) = result {")], ["question-mark"])
+M("C17-R3-linecount-unwrap", "C17", [(U, "    if let Ok(file) = File::open(entry.path()) {\n        let mut reader = BufReader::with_capacity(1024 * 32, file);", "    {\n        let file = File::open(entry.path()).unwrap();\n        let mut reader = BufReader::with_capacity(1024 * 32, file);")], ["reader-panic"])
+M("C17-R3-sha1-fallback", "C17", [(U, "            let hash = hasher.finalize();\n            return format!(\"{:x}\", hash);\n        }\n    }\n\n    String::new()\n}\n\npub fn get_sha256_file_hash", "            let hash = hasher.finalize();\n            return format!(\"{:x}\", hash);\n        }\n    }\n\n    String::from(\"error\")\n}\n\npub fn get_sha256_file_hash")], ["reader_fallback_get_sha1"])
+M("C17-R4-println-in-check-file", "C17", [(S, "        } else if let Err(e) = write!(std::io::stdout(), \"{}\", String::from(buf)) {\n            if e.kind() == ErrorKind::BrokenPipe {\n                return Ok(false);\n            }\n        }", "        } else {\n            print!(\"{}\", String::from(buf));\n        }")], ["stdout_"])
+M("C17-R4-pipe-not-stopping", "C17", [(S, "            if e.kind() == ErrorKind::BrokenPipe {\n                return Ok(false);\n            }", "            if e.kind() == ErrorKind::BrokenPipe {\n                self.error_count += 0;\n            }")], ["stdout_"])
+M("C17-R4-exec-search-unwrap", "C17", [(MA, "            if let Err(err) = searcher.list_search_results() {\n                if err.kind() != std::io::ErrorKind::BrokenPipe {\n                    error_message(\"search\", &err.to_string());\n                    return 1;\n                }\n            }", "            searcher.list_search_results().unwrap();")], ["stdout_exec_search"])
+
+# ---------------------------------------------------------------- C18
+M("C18-R1-raw-read-link", "C18", [(S, "if let Ok(resolved) = fs::canonicalize(&path) {", "if let Ok(resolved) = fs::read_link(&path) {")], ["follow_target-resolution"])
+M("C18-R1-no-dir-test", "C18", [(S, "                                                if resolved.is_dir() {\n                                                    ok = true;\n                                                    path = resolved;\n                                                }", "                                                {\n                                                    ok = true;\n                                                    path = resolved;\n                                                }")], ["follow_only-directories"])
+M("C18-R3-visited-by-given-path", "C18", [(S, "&& !self.visited_dirs.insert(PathBuf::from(&canonical_path))", "&& !self.visited_dirs.insert(dir.to_path_buf())")], ["visited_canonical-key"])
+M("C18-R3-visited-check-removed", "C18", [(S, "        if self.current_follow_symlinks\n            && !self.visited_dirs.insert(PathBuf::from(&canonical_path))\n        {\n            return Ok(());\n        }\n", "        self.visited_dirs.insert(PathBuf::from(&canonical_path));\n")], ["visited_before-listing"])
+M("C18-R4-depth-checked-sub", "C18", [(S, "canonical_depth.saturating_sub(base_depth) + 1", "canonical_depth - base_depth + 1")], ["depth_underflow"])
